@@ -439,6 +439,12 @@ def _selector(fnode, value, depth=0, p=None, module=None):
     """which element of a collection of concatenated axes is taken: 'first' / 'last' / other description / None"""
     if depth > 3:
         return None
+    if isinstance(value, ast.Name):
+        # `found = helper(expr)` ... `index, node = found`
+        ds = [a.value for a in walk_no_nested(fnode) if isinstance(a, ast.Assign) and len(a.targets) == 1 and isinstance(a.targets[0], ast.Name) and a.targets[0].id == value.id]
+        if len(ds) == 1:
+            return _selector(fnode, ds[0], depth + 1, p, module)
+        return None
     if p is not None and isinstance(value, ast.Call):
         r = resolve_callee(p, value, module)
         if r and r[0] == "func" and r[1].module is module:
